@@ -98,6 +98,10 @@ def _nt_c15(case, obs):
     return any(':u' in t for t in _sections(obs).get('RMAP', []))
 
 
+def _nt_err(case, obs):
+    return obs.startswith('BIND err')
+
+
 def pair_stream(name, nq, nt):
     return dict(name=name, n_quick=nq, n_thorough=nt, nontrivial=_nt_pair, compare=_pair_compare, wf_check=False)
 
@@ -150,6 +154,25 @@ PROPS = {
                    'chain correspondence (values returned by inner() and by invoke carry provenance tags).',
         level_note=CHAIN_NOTE, design_ref='DESIGN.md section 8 (C02)',
         assumptions=['plan_wf holds on the case (checked on every bound case of the run)'],
+    ),
+    'C04': dict(
+        monitor=True,
+        streams=[chain_stream(5000, 200000, _nt_err, name='malformed'), chain_stream(3000, 100000, _nt_bound),
+                 chain_stream(2000, 50000, _nt_bound, name='reorder'),
+                 dict(name='edits', n_quick=2000, n_thorough=50000, nontrivial=_edits_nontrivial)],
+        rule=CHAIN_RULE + 'stream malformed: a generated chain with 1-3 injected defects (literal or wrapper in last position, anonymous func parameter/result, '
+             'typed nil function, unhashable inputs on Memoize/Cacheable providers, conflicting cache and selection annotations, invoke/init passed as non-pointer, '
+             'nil or pointer to a non-function, unsatisfiable Required inputs, unreceived returns, MustConsume without consumer, annotations naming foreign types, '
+             'everything NonFinal, TerminalError returned by a wrapper); every Bind/init/invoke runs under recover and a watchdog; on a Bind error the caller\'s '
+             'function variables must still be nil; C04 non-trivial: Bind returns an error (malformed) / the chain binds and runs (other streams); also the '
+             'reorder and edits streams',
+        level_text='Theorems run_safe (a chain whose plan passes plan_wf never hands reflect.Call an invalid Value, for every behaviour and session), sem_ok '
+                   '(the reference semantics is total), reorder_perm, must_cache_or_fail, nil function rejected; every stage of the Bind model is total by '
+                   'construction (structural recursion or explicit fuel); Coq, no axioms. Tied to /repo by comparing bind-ok/bind-error, panics, hangs and '
+                   '"variables untouched on error" on malformed and ordinary chains.',
+        level_note=CHAIN_NOTE + ' Panics inside reflect/runtime on exotic values are exercised, not proved; defects D13 D14 D19 D22-D25 were repaired in /repo.',
+        design_ref='DESIGN.md section 8 (C04)',
+        assumptions=['fuel of the worklist loops is sufficient: validated by correspondence (exhaustion would show as a disagreement), not proved'],
     ),
     'C05': dict(
         monitor=True,
@@ -238,6 +261,21 @@ PROPS = {
                    'Shun (known finding D6).',
         level_note=CHAIN_NOTE + ' Known finding D6e is replayed on every run.', design_ref='DESIGN.md section 8 (C16)',
         assumptions=['bind-time inertness validated differentially, not proved'],
+    ),
+    'C17': dict(
+        monitor=True,
+        streams=[pair_stream('displace', 5000, 150000), chain_stream(4000, 100000, _nt_bound, name='reorder')],
+        rule='stream displace: a chain (no fallible failures, wrappers call inner() once, so that behaviour does not depend on the global serial) paired with the '
+             'same chain with one plain injector marked Reorder and listed at another position; monitor (when the base binds with every provider included, the '
+             'injector is the only producer of its output types and each of its inputs has one source): the variant binds, includes the same providers and every '
+             'call receives each value from the same producer (logs compared with serials stripped). stream reorder: ordinary chains with Reorder sprinkled on '
+             'injectors/wrappers; monitor: providers not marked Reorder keep their listed relative order and all call arguments equal the reference semantics\'',
+        level_text='Theorems reorder_perm (the reordered list is a permutation of the input, all lists), C17_no_reorder_identity, chain_refines and select_sound '
+                   '(whatever order reorder produced, selection is sound and every executed provider receives its inputs as in C01); Coq, no axioms. That a '
+                   'displaced injector lands between its unique producers and its consumers, and that non-Reorder providers keep their relative order, is validated '
+                   'by the differential streams (impl = model of reorder.go on both chains, relation checked on the implementation), not proved.',
+        level_note=CHAIN_NOTE + ' Defect D16 (static taint computed before Reorder) was repaired in /repo.', design_ref='DESIGN.md section 8 (C17)',
+        assumptions=['placement theorem for the topological sort not proved'],
     ),
     'C18': dict(
         monitor=True,
